@@ -159,17 +159,18 @@ int fp_crt(fp_t c, const fp_t a) {
 			/* Recover 3^f-root of unity, and continue algorithm. */
 			fp_copy(t3, (const dig_t *)fp_prime_get_crt());
 
-			fp_copy(c, t3);
-			for (int i = 0; i < f - 1; i++) {
-				fp_sqr(t4, c);
-				fp_mul(c, c, t4);
-			}
 			fp_sqr(t1, t0);
 			fp_mul(t1, t1, t0);
 			fp_mul(t1, t1, a);
 			if (rem == 2) {
 				fp_mul(t0, t0, a);
 				fp_mul(t1, t1, a);
+			}
+			/* Only write to c after the last use of a, they can alias. */
+			fp_copy(c, t3);
+			for (int i = 0; i < f - 1; i++) {
+				fp_sqr(t4, c);
+				fp_mul(c, c, t4);
 			}
 			fp_set_dig(t5, 1);
 			for (int j = f; j > 1; j--) {
